@@ -108,18 +108,44 @@ def validate_traces(recs, name: str, *, prop='ALL', module='TraceHands.tla', cfg
     d = fresh_dir(name)
     shards = write_shards(recs, d, max_bytes=max_bytes, min_shards=min(jobs, max(1, len(recs) // 4)))
 
+    eval_errors = []
+
     def one(j):
+        # A hand on which the specification cannot even be evaluated (an observed state outside anything the model's operators
+        # are defined on) makes TLC stop with an evaluation error.  That hand is reported as a disagreement of its own kind,
+        # taken out of the shard, and the rest of the shard is validated again.
         path, tids = shards[j]
-        rc, out, wall = run_tlc(module, cfg, {envvar: path, 'PROP': prop}, os.path.join(d, f'meta_{j}'), timeout=timeout)
-        with open(os.path.join(d, f'tlc_{j}.log'), 'w') as f:
-            f.write(out)
-        return j, rc, out, wall, tids
+        outs = ''
+        for attempt in range(12):
+            rc, out, wall = run_tlc(module, cfg, {envvar: path, 'PROP': prop}, os.path.join(d, f'meta_{j}_{attempt}'), timeout=timeout)
+            with open(os.path.join(d, f'tlc_{j}_{attempt}.log'), 'w') as f:
+                f.write(out)
+            if 'Model checking completed' in out or not tids:
+                return j, rc, outs + out, wall, tids, []
+            mt = re.findall(r'^/\\ tid = (\d+)', out, re.M)
+            ml = re.findall(r'^/\\ l = (\d+)', out, re.M)
+            if not mt or 'Error:' not in out:
+                return j, rc, out, wall, tids, []
+            k = int(mt[-1])
+            reason = re.search(r'Reason:\s*(.*?)\n\d+ states generated', out, re.S)
+            eval_errors.append({'tid': tids[k - 1], 'step': int(ml[-1]) + 1 if ml else 0, 'clause': 'model-eval-error', 'op': 'unknown',
+                                'names': [], 'info': (reason.group(1) if reason else out[-800:]).strip()[:800]})
+            with open(path) as f:
+                lines = f.readlines()
+            del lines[k - 1]
+            tids = tids[:k - 1] + tids[k:]
+            with open(path, 'w') as f:
+                f.writelines(lines)
+            # verdicts of hands completed before the error are kept: re-validation repeats them, DONE lines are idempotent
+        return j, rc, out, wall, tids, []
     t0 = time.time()
     with ThreadPoolExecutor(max_workers=jobs) as ex:
         results = list(ex.map(one, range(len(shards))))
     done, mism = {}, []
     gen = dist = 0
-    for j, rc, out, wall, tids in results:
+    for j, rc, out, wall, tids, _ in results:
+        if not tids and 'Model checking completed' not in out:
+            continue
         if 'Model checking completed' not in out and 'Finished in' not in out:
             raise MachineryError(f'TLC did not complete on shard {j} (rc={rc}); see {d}/tlc_{j}.log\n' + out[-3000:])
         if rc not in (0,):
@@ -137,6 +163,9 @@ def validate_traces(recs, name: str, *, prop='ALL', module='TraceHands.tla', cfg
             if m:
                 mism.append({'tid': tids[int(m.group(1)) - 1], 'step': int(m.group(2)), 'clause': m.group(3), 'op': m.group(4),
                              'names': sorted(re.findall(r'"([^"]*)"', m.group(5))), 'info': m.group(6).strip()})
+    for e in eval_errors:
+        mism.append(e)
+        done.setdefault(e['tid'], e['step'])
     missing = [r['tid'] for r in recs if r['tid'] not in done]
     if missing:
         raise MachineryError(f'{len(missing)} traces without a verdict (e.g. tid {missing[:5]}); see {d}')
